@@ -53,6 +53,11 @@ func main() {
 		if err != nil {
 			return fmt.Errorf("%s: %v", rel, err)
 		}
+		if f.Name.Name == "main" {
+			// a program (example, demonstration, generator) cannot be imported by
+			// the harness: it is not part of what the simulator runs
+			return nil
+		}
 		syncName, atomicName := "", ""
 		changed := false
 		for _, imp := range f.Imports {
